@@ -65,6 +65,7 @@ def run(ctx):
     ctx.guard(rule_d, ctx, ix)
     ctx.guard(rule_e, ctx, ix)
     ctx.guard(rule_f, ctx, ix)
+    ctx.guard(rule_g, ctx, ix)
 
 
 def _reaches(ix, cls, handler_src, target, depth=0):
@@ -442,3 +443,122 @@ def rule_f(ctx, ix):
             ctx.ob(R, '%s %s' % (f.construct, src), what, need <= have,
                    detail='ComponentIDComboHelper.refresh adds %s under the flags %s only (needs %s): a picker whose filter excludes '
                           'them still offers these attributes' % (src, sorted(have), sorted(need)), where=where(f, u))
+
+
+def _change_detectors(fnode, selfname):
+    """Remembered-value change detectors of a handler: {field: (tests, stores)} for the private fields that are compared with a
+    current value in an ``if`` (through `self._f`, `getattr(self, '_f', d)`, `hasattr(self, '_f')`, possibly via a local) and
+    assigned in the same function."""
+    from ..util import expand_locals
+    stores = {}
+    for st in walk_no_nested(fnode):
+        if isinstance(st, ast.Assign):
+            for t in st.targets:
+                if isinstance(t, ast.Attribute) and isinstance(t.value, ast.Name) and t.value.id == selfname and t.attr.startswith('_'):
+                    stores.setdefault(t.attr, []).append(st)
+    out = {}
+    for fld, sts in stores.items():
+        tests = []
+        stored = {unparse(expand_locals(fnode, st.value)) for st in sts} | {unparse(st.value) for st in sts}
+
+        def mentions(e, fld=fld):
+            t = unparse(e)
+            return ("'%s'" % fld) in t or ('%s.%s' % (selfname, fld)) in t
+        for n in walk_no_nested(fnode):
+            if not isinstance(n, ast.If):
+                continue
+            for raw in (n.test, expand_locals(fnode, n.test)):
+                for c in ast.walk(raw):
+                    # <current> is not / != <remembered>, where <current> is what the store remembers
+                    if isinstance(c, ast.Compare) and len(c.ops) == 1 and isinstance(c.ops[0], (ast.Is, ast.IsNot, ast.Eq, ast.NotEq)):
+                        a, b = c.left, c.comparators[0]
+                        for cur, rem in ((a, b), (b, a)):
+                            if mentions(rem) and not mentions(cur) and unparse(cur) in stored and n not in tests:
+                                tests.append(n)
+        if tests:
+            out[fld] = (tests, sts)
+    return out
+
+
+def rule_g(ctx, ix):
+    """Viewer states remember the last value they acted on (`_last_reference_data`, `_layers_data_cache`, ...) and skip their
+    set-up when nothing changed.  A path through such a handler that acts on the current value but leaves without refreshing the
+    remembered one makes the next "did it change?" test lie: the set-up is skipped when the old value comes back."""
+    from ..cfg import CFG, ENTRY, EXIT
+    from ..util import expand_locals
+    from .. import cond
+    R = 'C18.g'
+    ctx.describe(R, 'change detectors: every path that acts on the current value refreshes the remembered one', floor=5)
+    n = 0
+    for mname in sorted(ix.modules):
+        if not (mname.startswith('glue.viewers.') and mname.endswith('.state')):
+            continue
+        mod = ix.module(mname)
+        for c in [c for c in ix.classes.values() if c.module is mod]:
+            for name, mem in sorted(c.members.items()):
+                f = mem.func
+                if f is None or f.cls is not c:
+                    continue
+                s_ = f.self_name
+                if s_ is None:
+                    continue
+                dets = _change_detectors(f.node, s_)
+                if not dets:
+                    continue
+                cfg = CFG(f.node)
+                all_stores = {cfg.node_for(st) for fld, (ts, sts) in dets.items() for st in sts}
+
+                def acts(nd, s_=s_, cfg=cfg):
+                    st = cfg.stmt[nd]
+                    if st is None or cfg.kind[nd] != 'stmt':
+                        return False
+                    if isinstance(st, (ast.Assign, ast.AugAssign)):
+                        tg = st.targets if isinstance(st, ast.Assign) else [st.target]
+                        if any(isinstance(t, ast.Attribute) and isinstance(t.value, ast.Name) and t.value.id == s_ for t in tg):
+                            return True
+                    return any(isinstance(x, ast.Call) and isinstance(x.func, ast.Attribute) and unparse(x.func).startswith(s_ + '.')
+                               and not unparse(x.func).startswith(s_ + '.layers') for x in ast.walk(st))
+                for fld, (tests, sts) in sorted(dets.items()):
+                    n += 1
+                    mine = {cfg.node_for(st) for st in sts}
+                    others = all_stores - mine
+                    # the edge of each test taken when nothing changed
+                    pruned = set()
+                    for t in tests:
+                        fm = cond.formula(expand_locals(f.node, t.test))
+                        env = {}
+                        for a in cond.atoms(fm):
+                            if fld in a:
+                                env[a] = True if a.startswith(('is|', 'eq|', 'hasattr(')) else False
+                            else:
+                                env[a] = False
+                        try:
+                            v = cond.evaluate(fm, env)
+                        except Exception:
+                            continue
+                        pruned.add((cfg.node_for(t), 'true' if v else 'false'))
+                    # search: (node, acted, saw another detector's store)
+                    seen = set()
+                    todo = [(ENTRY, False, False, (ENTRY,))]
+                    bad = None
+                    while todo and bad is None:
+                        nd, acted, other, path = todo.pop()
+                        if (nd, acted, other) in seen:
+                            continue
+                        seen.add((nd, acted, other))
+                        if nd == EXIT:
+                            if acted and not other:
+                                bad = path
+                            continue
+                        for (s2, lab) in cfg.succ[nd]:
+                            if lab in ('exc', 'raise') or (nd, lab) in pruned or s2 in mine:
+                                continue
+                            todo.append((s2, acted or acts(s2), other or s2 in others, path + (s2,)))
+                    ctx.ob(R, '%s %s' % (f.construct, fld), 'no path acts on the current value and leaves without refreshing %s.%s' % (s_, fld), bad is None,
+                           detail='%s can act on the current value (`%s`) and return without refreshing `%s.%s`, the value its "did it '
+                                  'change?" test compares with: when the old value comes back later the test says "unchanged" and the '
+                                  'set-up is skipped (e.g. a dataset removed from a viewer and added again leaves the viewer without '
+                                  'attribute choices)' % (f.construct, next((norm(cfg.stmt[x]) for x in (bad or ()) if x not in (ENTRY, EXIT) and acts(x)), ''), s_, fld),
+                           where=where(f, tests[0]), path=cfg.guards_on_path(list(bad)) if bad else None)
+    if n < 5:
+        raise AnalysisError('C18.g: only %d change detectors found in the viewer states' % n)
